@@ -9,6 +9,11 @@ CLAIMED = {
   note="Trusted: Go type checker, go/ssa, VTA call graph, the explorer (path classes with fact pruning, phi resolution, callee summaries) and the tabled exemptions in internal/rules/c01.go. One abstract lock per mutex type.",
   technique="path-sensitive SSA dataflow (guard dominance, typestate of the shard mutex, interprocedural lock-state), custom checker",
   ref="DESIGN.md section 4 C01"),
+ "C03": dict(
+  text="Static analysis: on every path class of LockDB.Lock/UnLock (finishing helpers inlined, phi-resolved flags, correlated conditions) the request is answered exactly once or deferred exactly once; the three asynchronous repliers reply only after a test-and-set of the hold's tombstone inside one shard-mutex section, with the hold's own command/protocol; grants and cancellations tombstone the wait first; the text protocol's late-reply filter and request-id arming; pooled commands are never freed twice / while retained / before use. Necessary conditions only: cross-goroutine races beyond the mutex+tombstone premises and wire delivery are not decided, hence level 'other'.",
+  note="Trusted: Go type checker, go/ssa, the explorer's path-class abstraction (facts pruned by liveness, phis of flags/pointers resolved, loops widened), reply = method named ProcessLockResultCommand[Locked].",
+  technique="path-sensitive SSA typestate (reply linearity, tombstone test-and-set ordering, ownership of pooled commands), custom checker",
+  ref="DESIGN.md section 4 C03"),
 }
 
 NA = {
